@@ -1414,10 +1414,7 @@ def _sympy_to_BlockSeries(
 
     def op_eval(*index):
         expr = operator_derivatives[index].subs({n: 0 for n in symbols})
-        # - Sympy three-valued logic requires "is False".
-        # - The last check is a workaround for sympy issue #27898. (Matrices
-        # with operators are never Hermitian.)
-        if check_hermitian and expr.is_hermitian is False and not expr.atoms(Operator):
+        if check_hermitian and _is_not_hermitian(expr):
             raise ValueError("Operator must be Hermitian.")
 
         expr = expr * reduce(mul, [n**i for n, i in zip(symbols, index)], 1)
@@ -1598,6 +1595,37 @@ def _extract_diagonal(
         diags.append(eigs)
 
     return tuple(diags)
+
+
+def _is_not_hermitian(expr: sympy.MatrixBase | sympy.Expr) -> bool:
+    """Check whether a symbolic expression is guaranteed to be non-Hermitian.
+
+    Sympy three-valued logic requires "is False": an expression whose Hermiticity
+    cannot be decided is accepted.
+    """
+    matrix = sympy.Matrix([expr])
+    if not expr.atoms(Operator):
+        return matrix.is_hermitian is False
+    # Workaround for sympy issue #27898. (Matrices with operators are never
+    # Hermitian.) Compare the number ordered forms of the elements instead.
+    operators = find_operators(matrix)
+    for i in range(matrix.rows):
+        for j in range(i, matrix.cols):
+            difference = NumberOrderedForm.from_expr(
+                matrix[i, j] - Dagger(matrix[j, i]), operators
+            )
+            # A coefficient is a function of the number operators: it is guaranteed
+            # not to vanish if it is nonzero for generic values of those.
+            generic = {
+                placeholder: sympy.Dummy(positive=True)
+                for placeholder in difference._placeholder_to_number_operator
+            }
+            if any(
+                coeff.xreplace(generic).is_zero is False
+                for coeff in difference.terms.values()
+            ):
+                return True
+    return False
 
 
 def _sympy_mask(mask: sympy.MatrixBase, shape: tuple[int, int]) -> sympy.MatrixBase:
